@@ -15,12 +15,40 @@ const POOL: &[char] = &[
 fn gen(src: &mut Src, tier: Tier) -> Case {
     let slen = src.weighted(&[1, 3, 4, 4, 3, 2, 1, 1, 1]);
     let small: Vec<char> = (0..4).map(|_| *src.pick(POOL)).collect();
-    let s: String = (0..slen).map(|_| if src.chance(2, 3) { *src.pick(&small) } else { *src.pick(POOL) }).collect();
+    let fl = Fl::all()[src.below(24) as usize];
+    // a third of the strings are drawn from ALL cased code points (either canonicalisation), and their planted
+    // copies are re-spelled with arbitrary members of each character's equivalence class
+    let cased_mode = src.chance(1, 3);
+    let all_cased = &super::c12::cased().0;
+    let s: String = (0..slen)
+        .map(|_| {
+            if cased_mode && src.chance(3, 4) {
+                char::from_u32(*src.pick(all_cased)).unwrap_or('a')
+            } else if src.chance(2, 3) {
+                *src.pick(&small)
+            } else {
+                *src.pick(POOL)
+            }
+        })
+        .collect();
+    let respell = |src: &mut Src, s: &str| -> String {
+        s.chars()
+            .map(|c| {
+                let mut p = super::c12::partners(c as u32, fl.unicode());
+                p.push(c as u32);
+                char::from_u32(*src.pick(&p)).unwrap_or(c)
+            })
+            .collect()
+    };
     // t: random text with planted (possibly overlapping) copies of s
     let mut t = String::new();
     let parts = src.range(0, if tier == Tier::Quick { 5 } else { 8 });
     for _ in 0..parts {
         match src.below(4) {
+            0 if cased_mode => {
+                let r = respell(src, &s);
+                t.push_str(&r);
+            }
             0 => t.push_str(&s),
             1 => {
                 // partial copy
@@ -32,7 +60,6 @@ fn gen(src: &mut Src, tier: Tier) -> Case {
             _ => t.push(*src.pick(POOL)),
         }
     }
-    let fl = Fl::all()[src.below(24) as usize];
     Case { pat: vec![], flags: fl.text(), hay: t, hay16: vec![], start: 0, x: json!({ "s": s }) }
 }
 
